@@ -75,6 +75,7 @@ def run(rep, pool, driver, tier):
                 for shape in (['one_col', 'four_cols'] if not quick else [r.choice(['one_col', 'four_cols'])]):
                     tasks.append((dict(cfg, op='fault_run', events=es, fault={'kind': 'bad_line', 'pos': pos, 'shape': shape}),
                                   'bad_line', 'bad_line'))
+            tasks.append((dict(cfg, op='fault_run', events=es, n_jobs=r.choice([2, 4, 8]), fault={'kind': 'all_bad'}), 'bad_line', 'all_lines_bad'))
             for frac_ in ([0.3, 0.6, 0.9] if not quick else [r.choice([0.3, 0.6, 0.9])]):
                 tasks.append((dict(cfg, op='fault_run', events=es * 3, fault={'kind': 'truncated_gz', 'fraction': frac_}),
                               'truncated_gz', 'truncated_gz'))
